@@ -63,6 +63,23 @@ def gen(rng, tier):
             continue
         cases.append({"op": "as_pubo", "input": inst, "stream": tag})
         cases.append({"op": "as_qubo", "input": inst, "stream": tag})
+    # several monomials collapsing onto ONE binary key (x1^2 x2, x1 x2^2, x1 x2 / x, x^2, x^3 / repeated constants) such
+    # that a proper PREFIX of their coefficients cancels exactly and a later one makes the total non-zero (and the
+    # variants: total zero, cancellation only at the end, no cancellation)
+    for _ in range(12 if tier == "quick" else 200):
+        dvs = [GI.dv(i, 1, None) for i in (1, 2, 3)]
+        c = G.dyadic(rng, 6, 1, nonzero=True)
+        d = G.dyadic(rng, 6, 1, nonzero=True)
+        groups = [[[1, 1, 2], [1, 2, 2], [1, 2]], [[3], [3, 3], [3, 3, 3]], [[], [], []], [[2, 1], [1, 2], [2, 2, 1, 1]]]
+        g = rng.choice(groups)
+        pattern = rng.choice([[c, -c, d], [c, d, -c], [c, -c, d, -d], [c, d, -(c + d)], [c, -c]])
+        terms = [[list(g[k % len(g)]), f64(v)] for k, v in enumerate(pattern)]
+        extra = [[[rng.choice([1, 2, 3])], f64(G.dyadic(rng, 4, 1, nonzero=True))]] if rng.random() < 0.6 else []
+        pos = rng.randint(0, len(terms))
+        fn = ["poly", terms[:pos] + extra + terms[pos:]]       # the order inside the group is kept
+        cases.append({"op": "as_pubo", "input": [1, [fn], dvs, [], [], [], [], [], []], "stream": "prefix-cancel"})
+        if all(len(set(t[0])) <= 2 for t in fn[1]):
+            cases.append({"op": "as_qubo", "input": [1, [fn], dvs, [], [], [], [], [], []], "stream": "prefix-cancel"})
     # near-epsilon coefficients (enter test |c| > eps) and exact cancellations down to +-t (leave test |v| < eps)
     for t in (0.0, 2.0 ** -53, -2.0 ** -53, 2.0 ** -52, -2.0 ** -52, 3 * 2.0 ** -53, -3 * 2.0 ** -53, 2.0 ** -51):
         for c in (2.0 ** -52, 1.5 * 2.0 ** -52, 2.0 ** -53, -2.0 ** -52, 2.0 ** -51):
